@@ -59,8 +59,28 @@ def ctor_pair(nodes, classes, ignore, route):
     return [a, b]
 
 
+def py_plain(v):
+    """protocol-encoded option value -> plain JSON for the Python dict route (None if not expressible)"""
+    if v is None or isinstance(v, (bool, str)):
+        return v
+    if isinstance(v, dict) and "i" in v:
+        return int(v["i"])
+    if isinstance(v, list):
+        return [py_plain(x) for x in v]
+    if isinstance(v, dict) and "m" in v:
+        return {str(py_plain(k)): py_plain(x) for k, x in v["m"]}
+    return None
+
+
+def py_case(rust_case):
+    c = {"op": "py_config", "py_options": {o[0]: py_plain(o[1]) for o in rust_case["options"]}, "ctor": {},
+         "twin_of": core.case_hash(rust_case), "py_twin": True}
+    return c
+
+
 class C20(Prop):
     id = "C20"
+    serial = True
     rule = ("op config: option sets over all supported keys, unknown keys and wrong types through the file route "
             "(Config::new + load_from_file), the dict-like route (set_option fold + compile, as from_dict does) and the "
             "constructor, then setter histories of length <=8 on a live Reclass instance incl. failing pattern lists; compared "
@@ -109,6 +129,10 @@ class C20(Prop):
             if i % 4 == 0:
                 yield from ctor_pair(r.choice(["n1", "mynodes", "sub/n", "x_y", "cls-nodes", "c1x", "mycls.d", "sub/c-n"]),
                                      r.choice(["c1", "mycls", "sub/c", "cls"]), r.chance(1, 2), r.choice(["file", "opts"]))
+            if i % 3 == 0:
+                base = C("opts", opts, [])
+                yield base
+                yield py_case(base)
             if not steps or i % 2 == 0:
                 t = C("opts" if route == "file" else "file", opts, [])
                 t["twin_of"] = core.case_hash(C(route, opts, []))
@@ -116,6 +140,21 @@ class C20(Prop):
                 yield t
 
     def judge(self, req, impl, reply):
+        if req.get("op") == "py_config":
+            if not isinstance(impl, dict) or "dict" not in impl:
+                return dict(agree=False, spec_ok=None, why="harness rejected: %s" % str(impl)[:200], skip=True)
+            why = []
+            for route in ("dict", "file", "ctor"):
+                r = impl.get(route) or {}
+                if "exc" in r and r["exc"] != "ValueError":
+                    why.append("%s route: failure surfaces as %s (%s), not ValueError" % (route, r["exc"], r.get("msg", "")[:80]))
+            d, f = impl["dict"], impl["file"]
+            if ("ok" in d) != ("ok" in f):
+                why.append("dict route %s, file route %s for the same options" % ("succeeds" if "ok" in d else "fails: " + d.get("msg", "")[:80],
+                                                                               "succeeds" if "ok" in f else "fails: " + f.get("msg", "")[:80]))
+            elif "ok" in d and d["ok"] != f["ok"]:
+                why.append("dict and file routes give different configurations: %s vs %s" % (d["ok"], f["ok"]))
+            return dict(agree=True, spec_ok=None, impl_oracle=(False if why else None), concrete=bool(why), why="; ".join(why))
         if "bad" in reply:
             return dict(agree=False, spec_ok=None, why="model rejected: %s" % reply["bad"], skip=True)
         if not isinstance(impl, dict) or ("bad" in impl and "build" not in impl):
@@ -165,6 +204,20 @@ class C20(Prop):
                 byhash[core.case_hash(req)] = impl
         for (req, impl, reply) in results:
             t = req.get("twin_of")
+            if t and t in byhash and isinstance(impl, dict) and req.get("py_twin"):
+                # the Python dict route against the Rust set_option route (which the model checks)
+                a = core.norm_result(byhash[t].get("build"), True)
+                d = impl.get("dict") or {}
+                if (a[0] == "ok") != ("ok" in d):
+                    out.append((req, impl, reply, dict(agree=True, spec_ok=None, impl_oracle=False, concrete=True,
+                                                       why="Config.from_dict %s where the same options through set_option %s" % (
+                                                           "succeeds" if "ok" in d else "fails (%s)" % d.get("msg", "")[:80], a[0]))))
+                elif a[0] == "ok":
+                    fa = {k: a[1][k] for k in ("nodes_path", "classes_path", "ignore", "compose", "patterns", "literal_dots")}
+                    if fa != d["ok"]:
+                        out.append((req, impl, reply, dict(agree=True, spec_ok=None, impl_oracle=False, concrete=True,
+                                                           why="Config.from_dict gives %s, set_option route %s" % (d["ok"], fa))))
+                continue
             if t and t in byhash and isinstance(impl, dict):
                 a = core.norm_result(byhash[t].get("build"), True)
                 b = core.norm_result(impl.get("build"), True)
@@ -174,9 +227,13 @@ class C20(Prop):
         return out
 
     def nontrivial(self, req, impl, reply):
+        if req.get("op") == "py_config":
+            return len(req.get("py_options", {})) >= 2
         return len(req.get("options", [])) >= 2 or len(req.get("steps", [])) >= 2
 
     def tags(self, req, impl, reply):
+        if req.get("op") == "py_config":
+            return ["route=python", "pydict:" + ("ok" if "ok" in (impl or {}).get("dict", {}) else "exc")]
         t = ["route=" + req.get("route", "?")]
         if isinstance(impl, dict):
             b = core.norm_result(impl.get("build"), True)
